@@ -182,7 +182,11 @@ static void run_child(char *text)
     G = parse_case(text);
     g_ienv[1] = (int)P_int("panel", 8); g_ienv[2] = (int)P_int("relax", 4); g_ienv[3] = (int)P_int("maxsuper", 20);
     g_ienv[4] = (int)P_int("rowblk", 20); g_ienv[5] = (int)P_int("colblk", 10);
-    g_ienv[6] = (int)P_int("fill6", -50); g_ienv[7] = (int)P_int("fill7", -50); g_ienv[8] = (int)P_int("fill8", -30);
+    /* storage estimates: unless the case sets them (C05 does), use absolute values that always suffice (positive = number of
+       entries): U needs at most n^2 entries, the L subscripts are stored twice per supernode */
+    { long n_ = P_int("n", 1); long big7 = n_ * n_ + 4 * n_ + 64, big8 = 2 * n_ * n_ + 8 * n_ + 64;
+      if (big8 > 2000000000L) { big7 = -50; big8 = -30; }
+      g_ienv[6] = (int)P_int("fill6", big7); g_ienv[7] = (int)P_int("fill7", big7); g_ienv[8] = (int)P_int("fill8", big8); }
     if (P_int("dynsnode", 0)) setenv("SuperLU_DYNAMIC_SNODE_STORE", "1", 1); else unsetenv("SuperLU_DYNAMIC_SNODE_STORE");
     {
         const char *sm = P_str("sched", "none"); int mode = SCHED_NONE, strat = 0;
